@@ -1,10 +1,29 @@
 """Regenerate every translator-produced table of the model (coq/Gen/*.v) from
-/repo's working tree."""
+the repo's working tree.  A check module that owns a table declares
+`TABLES = [("translator", "Table.v")]`; they are collected here."""
+import glob, importlib, os
 import vlib
 
-TABLES = [("codec", "GoLayouts.v")]
+
+def _tables():
+    t = []
+    here = os.path.join(os.path.dirname(os.path.abspath(__file__)), "checks")
+    for f in sorted(glob.glob(os.path.join(here, "c[0-9][0-9].py"))):
+        mod = importlib.import_module("checks." + os.path.basename(f)[:-3])
+        for x in getattr(mod, "TABLES", []):
+            if x not in t:
+                t.append(x)
+    return t
+
+
+class _Lazy(list):
+    def __iter__(self):
+        return iter(_tables())
+
+
+TABLES = _Lazy()
 
 
 def all_tables():
-    for which, out in TABLES:
+    for which, out in _tables():
         vlib.run_xlate(which, out)
